@@ -30,12 +30,13 @@ struct Trace {
     FILE* f = nullptr;
     std::string path;
     uint64_t lines = 0;
+    std::vector<char> buf;
     void open(const std::string& p) {
         path = p;
         f = fopen(p.c_str(), "w");
         if (!f) { perror(p.c_str()); _exit(3); }
-        static char big[1 << 20];
-        setvbuf(f, big, _IOFBF, sizeof(big));
+        buf.resize(1 << 20);       // per-trace buffer: traces of different threads share nothing
+        setvbuf(f, buf.data(), _IOFBF, buf.size());
     }
     void emit(const json& j) {
         std::string s = j.dump();
